@@ -417,7 +417,19 @@ func (ev *dtEval) evalGuards(gs []dtGuard, fr *dtFrame, env *dtEnv) (bool, error
 	for _, gd := range gs {
 		var v bool
 		var err error
-		if gd.tag != nil {
+		if gd.tag != nil && !isIntLike(fr.info.TypeOf(gd.tag)) {
+			// switch over a non-integer (an error value, a string): the case test is the atom tag==case
+			name := ev.atomName(ev.canon(gd.tag, fr)+"=="+ev.canon(gd.cond, fr), gd.cond.Pos(), env == nil)
+			if env == nil {
+				ev.boolAtoms[name] = true
+				continue
+			}
+			val, ok := env.bools[name]
+			if !ok {
+				return false, fmt.Errorf("no value for atom %s", name)
+			}
+			v = val
+		} else if gd.tag != nil {
 			a, e1 := ev.evalInt(gd.tag, fr, env)
 			b, e2 := ev.evalInt(gd.cond, fr, env)
 			if e1 != nil {
